@@ -30,6 +30,7 @@ import (
 	"github.com/nuetzliches/hookaido/internal/httpheader"
 	"github.com/nuetzliches/hookaido/internal/queue"
 	"github.com/nuetzliches/hookaido/internal/secrets"
+	"github.com/nuetzliches/hookaido/internal/verifhook"
 )
 
 const (
@@ -8354,6 +8355,7 @@ func writeFileAtomic(path string, data []byte) error {
 		return err
 	}
 	tmpPath := tmp.Name()
+	verifhook.Point("mcpwrite.tmp_created")
 	keepTemp := false
 	defer func() {
 		_ = tmp.Close()
@@ -8368,17 +8370,21 @@ func writeFileAtomic(path string, data []byte) error {
 	if _, err := tmp.Write(data); err != nil {
 		return err
 	}
+	verifhook.Point("mcpwrite.written")
 	if err := tmp.Sync(); err != nil {
 		return err
 	}
+	verifhook.Point("mcpwrite.synced")
 	if err := tmp.Close(); err != nil {
 		return err
 	}
 
+	verifhook.Point("mcpwrite.before_rename")
 	if err := os.Rename(tmpPath, path); err != nil {
 		return err
 	}
 	keepTemp = true
+	verifhook.Point("mcpwrite.renamed")
 
 	if err := syncDir(dir); err != nil {
 		return err
